@@ -1,6 +1,6 @@
 """C15 Deferred work (spans, captures): per-thread store, callback contexts, callback processing."""
 from .common import *
-from pyvc.core import SymCallable, LogEntry, ALLOC_BASE
+from pyvc.core import SymCallable, LogEntry, ALLOC_BASE, tkey
 
 TL = "thread_local.py"
 CB = "processor/context/callback_context.py"
@@ -30,7 +30,7 @@ def _provider(S_):
         res = it.ctx.fresh("provided", Val)
         it.st.log.append(LogEntry("default_provider", list(args), kwargs, res, anchor))
         return res
-    S_.I.st.ghost.setdefault("sym_callables", {})[str(z3.simplify(term))] = SymCallable("default_provider", spec)
+    S_.I.st.ghost.setdefault("sym_callables", {})[tkey(term)] = SymCallable("default_provider", spec)
 
 
 def others_unchanged(S_, store, key):
